@@ -21,6 +21,7 @@ import (
 
 	"github.com/cosi-project/runtime/pkg/controller"
 	"github.com/cosi-project/runtime/pkg/resource"
+	"github.com/cosi-project/runtime/pkg/state"
 	"github.com/cosi-project/runtime/pkg/task"
 
 	"verif/harness/gp"
@@ -37,9 +38,9 @@ func TestC16(t *testing.T) {
 			"instant; cancellation enumerated over seeded virtual instants with a goroutine census. distinct = (plan kind, seed-derived config, instant) hash; non-trivial = the plan produced >= 8 " +
 			"consecutive failures or a shutdown under load (writes in flight)")
 		c.Assume("back-off constants of the implementation are not judged, only growth and reset on streaks; exact cenkalti bands are reported as info")
-		c.Require("controller_streaks", "queue_item_streaks", "hook_streaks", "task_streaks", "healthy_checks_during_backoff", "watch_errors_injected", "cancellations", "requeue_intervals_checked", "final_convergence_checks", "tracking_window_faults", "parked_item_plans")
+		c.Require("controller_streaks", "queue_item_streaks", "hook_streaks", "task_streaks", "healthy_checks_during_backoff", "watch_errors_injected", "cancellations", "requeue_intervals_checked", "final_convergence_checks", "tracking_window_faults", "parked_item_plans", "cleanup_failure_streaks")
 
-		plans := []func(*vk.C, *rand.Rand, int){controllerFaults, queueFaults, watchError, cancellation, tasks, trackingFaults, parkedItem}
+		plans := []func(*vk.C, *rand.Rand, int){controllerFaults, queueFaults, watchError, cancellation, tasks, trackingFaults, parkedItem, cleanupFailing}
 		n := c.N(400, 40000)
 
 		var wg sync.WaitGroup
@@ -265,6 +266,96 @@ func pickCached(rng *rand.Rand) []rtp.Kind {
 	}
 
 	return out
+}
+
+// ---- plan 8: a controller whose output clean-up keeps failing --------------------------------------------------------------
+// The controller tracks its outputs (StartTrackingOutputs ... CleanupOutputs); a stale output of its own has to be removed, but the store
+// fails the Destroy 14 times in a row, so CleanupOutputs returns an error and the controller fails (panic or error, seeded) and is
+// restarted: the restart delays must grow like for any other failure, and once the store stops failing everything converges.
+func cleanupFailing(c *vk.C, rng *rand.Rand, k int) {
+	kA := rtp.Kinds[0]
+	mode := []string{"panic", "err"}[rng.IntN(2)]
+
+	var failures atomic.Int64
+
+	cfg := rtp.Cfg{MaxDelay: rng.IntN(2), Ctrls: []rtp.CtrlCfg{
+		{Name: "TC", Inputs: []controller.Input{in(kA, controller.InputWeak)}, LateAt: -1, Outputs: []controller.Output{{Type: res.TypeC, Kind: controller.OutputExclusive}},
+			Script: func(ctx context.Context, r controller.Runtime, n int) {
+				r.StartTrackingOutputs()
+
+				list, err := r.List(ctx, resource.NewMetadata(kA.NS, kA.Type, "", resource.VersionUndefined))
+				if err != nil {
+					panic(err)
+				}
+
+				for _, it := range list.Items {
+					tok := res.Token(it)
+					if err := r.Modify(ctx, res.NewC("out", it.Metadata().ID()), func(x resource.Resource) error {
+						res.SpecOf(x).Token = tok
+
+						return nil
+					}); err != nil {
+						panic(err)
+					}
+				}
+
+				if err := r.CleanupOutputs(ctx, resource.NewMetadata("out", res.TypeC, "", resource.VersionUndefined)); err != nil {
+					failures.Add(1)
+					panic(fmt.Sprintf("verif: output clean-up failed (%s): %v", mode, err))
+				}
+			}},
+	}}
+
+	w, err := rtp.NewWorld(rng, cfg)
+	if err != nil {
+		c.Violation("world-setup-failed", err.Error())
+
+		return
+	}
+
+	ctx, cancel := context.WithCancel(context.Background())
+	defer cancel()
+
+	// a stale output of the controller, left over from an earlier life
+	stale := res.NewC("out", "stale")
+	res.SpecOf(stale).Token = "old"
+
+	if err := w.St.Create(gp.WithNoGate(ctx), stale, state.WithCreateOwner("TC")); err != nil {
+		c.Violation("world-setup-failed", err.Error())
+
+		return
+	}
+
+	_ = w.Write(ctx, rtp.WCreate, gp.Key{NS: kA.NS, Type: kA.Type, ID: "x"}, "")
+
+	w.Px.FailNext("destroy", 14)
+	w.Run(ctx)
+	rtp.Quiesce(40 * time.Minute)
+
+	starts := w.Probes()["TC"].Starts()
+
+	var gaps []float64
+	for i := 0; i+1 < len(starts) && i < 14; i++ {
+		gaps = append(gaps, starts[i+1]-starts[i])
+	}
+
+	detail := map[string]any{"plan": "cleanup-failing", "run_starts_ms": starts, "cleanup_failures": failures.Load()}
+
+	if failures.Load() < 8 {
+		c.Inconclusive(fmt.Sprintf("cleanup-failing plan: only %d clean-up failures were produced", failures.Load()))
+	} else if streak(c, "controller-restart-after-failed-cleanup", gaps, -1, detail) {
+		c.Count("cleanup_failure_streaks", 1)
+	}
+
+	if w.Px.Shadow(gp.Key{NS: "out", Type: res.TypeC, ID: "stale"}) != nil {
+		c.Violation("not-converged-after-faults-output-tracking", detail)
+	}
+
+	cancel()
+	w.WaitRun()
+	synctest.Wait()
+
+	c.Case(vk.Hash("cleanupfail", k, mode), true)
 }
 
 // ---- plan 7: an item parked with a long requested delay next to an item failing with plain errors ------------------------------
